@@ -1,7 +1,7 @@
 (* C18 - Curve self-intersections (partial: the shape of the result; genuineness / completeness inherit C02/C03). *)
 From Coq Require Import List ZArith QArith Bool.
-From Coq Require Import Qcanon.
-From BZ Require Import Base.Ops Base.QcInst Model.Curve Model.SelfIsect Theory.SelfIsectTheory Model.SelfIsectN Theory.SelfIsectGenuine.
+From Coq Require Import Qcanon Reals.
+From BZ Require Import Base.Ops Base.QcInst Model.Curve Model.SelfIsect Theory.SelfIsectTheory Model.SelfIsectN Theory.SelfIsectGenuine Base.RInst Theory.Monotone Model.Intersect Theory.Uniq.
 Import ListNotations.
 Open Scope Q_scope.
 
@@ -24,8 +24,8 @@ Print Assumptions C18_small_turning_angle_is_empty.
    (C02), then every reported pair (s1, s2) satisfies B(s1) = B(s2) on the ORIGINAL curve: the rescaling s/2, (1+t)/2 of the
    glue is exactly the reparametrisation of the halves. *)
 Theorem C18_reported_pairs_are_self_intersections :
-  forall (T : Type) (K : Ops T), field_of K -> char0 K -> forall (eqb : T -> T -> bool) fuel rows st res calls st',
-  wf_rows rows -> self_isect_n K eqb fuel rows st = Some (res, calls, st') ->
+  forall (T : Type) (K : Ops T), field_of K -> char0 K -> forall (eqb : T -> T -> bool) (dup : T * T -> T * T -> bool) fuel rows st res calls st',
+  wf_rows rows -> self_isect_n K eqb dup fuel rows st = Some (res, calls, st') ->
   Forall (genuine_call K) calls -> forall p, In p res -> point K rows (fst p) = point K rows (snd p).
 Proof. exact @reported_pairs_are_self_intersections. Qed.
 Print Assumptions C18_reported_pairs_are_self_intersections.
@@ -35,7 +35,7 @@ Print Assumptions C18_reported_pairs_are_self_intersections.
 Example C18_cubic_loop :
   let rows := qcm [[-9; 13; -13; 9]; [0; 1; 1; 0]] in
   let st := mkS [false; true; true] [[(Q2Qc (1 # 2), Q2Qc (1 # 2)); (Q2Qc 1, Q2Qc 0)]] in
-  match self_isect_n QcOps Qc_eqb 5 rows st with
+  match self_isect_n QcOps Qc_eqb (fun _ _ => false) 5 rows st with
   | Some (res, [(l, r, _)], _) =>
       map (fun p => (this (fst p), this (snd p))) res = [(1 # 4, 3 # 4)] /\
       map this (point QcOps l (Q2Qc (1 # 2))) = map this (point QcOps r (Q2Qc (1 # 2))) /\
@@ -43,3 +43,39 @@ Example C18_cubic_loop :
   | _ => False
   end.
 Proof. vm_compute. repeat split; reflexivity. Qed.
+
+(* the empty answer is the CORRECT one for the curves the property exempts: if every hodograph control vector
+   (x_{i+1} - x_i, y_{i+1} - y_i) has a positive component along one direction (a, b) - all of them in one open half-plane -
+   the curve is injective on [0,1]: two different parameters never give the same point.  Every degree, real arithmetic
+   (the harness selects its "convex arc" family by exactly this certificate, in rational arithmetic) *)
+Theorem C18_half_plane_curves_have_no_self_intersection : forall (xs ys : list R) (a b s t : R),
+  List.length xs = List.length ys -> (2 <= List.length xs)%nat -> allpos (diffs (lin2 a b xs ys)) ->
+  (0 <= s <= 1)%R -> (0 <= t <= 1)%R -> s <> t ->
+  ~ (bernstein ROps xs (1 - s)%R s = bernstein ROps xs (1 - t)%R t /\
+     bernstein ROps ys (1 - s)%R s = bernstein ROps ys (1 - t)%R t).
+Proof. exact half_plane_hodograph_is_injective. Qed.
+Print Assumptions C18_half_plane_curves_have_no_self_intersection.
+(* non-vacuity: the parabola x = (0, 1, 2), y = (0, 1, 0) with direction (1, 0) *)
+Example C18_half_plane_example : allpos (diffs (lin2 1 0 [0; 1; 2]%R [0; 1; 0]%R)).
+Proof. unfold allpos. cbn [lin2 zipw diffs]. repeat constructor; Lra.lra. Qed.
+
+(* "returned exactly once" (after the repair of finding F19 - a crossing with a parameter exactly on a split point used to be
+   reported once by the left-right intersection and again inside the half that has the split point as an end point): in the
+   reported list no entry repeats an earlier one, with add_intersection's own notion of repeated (relative distance below
+   NEWTON_ERROR_RATIO, read from the source); and the removal loses nothing - every pair found by one of the three sources
+   is reported or repeats a reported pair.  Whatever the oracles answer, at every level of the recursion *)
+Theorem C18_nothing_is_reported_twice : forall fuel st res st',
+  self_isect fuel st = Some (res, st') ->
+  forall l1 p l2, res = l1 ++ p :: l2 -> existsb (dupQ p) l1 = false.
+Proof. exact self_isect_reports_nothing_twice. Qed.
+Print Assumptions C18_nothing_is_reported_twice.
+Theorem C18_removal_of_repeats_loses_nothing : forall l p, In p l ->
+  In p (uniq l) \/ exists e, In e (uniq l) /\ dupQ p e = true.
+Proof. exact uniq_loses_nothing. Qed.
+Print Assumptions C18_removal_of_repeats_loses_nothing.
+(* non-vacuity: what the three sources deliver for the cubic (-45, 29, -17, 9), (-63/16, 17/16, 33/16, -15/16), which crosses
+   itself once, at s = 1/2 and s = 3/4 (and for a crossing at 1/6, 1/2, where the copies differ in the last bit) *)
+Example C18_split_point_crossing_once :
+  uniq [(1 # 2, 3 # 4); (1 # 2, 3 # 4); (1 # 2, 3 # 4)] = [(1 # 2, 3 # 4)] /\
+  List.length (uniq [(6004799503160661 # 36028797018963968, 1 # 2); (6004799503160660 # 36028797018963968, 1 # 2)]) = 1%nat.
+Proof. vm_compute. split; reflexivity. Qed.
